@@ -210,7 +210,7 @@ def replay(ctx, binpath, sets, nproc=4, corrupt=""):
         fn = os.path.join(ctx.work, "fsreplay_%d.json" % k)
         vf.write_json(fn, {"unit": UNIT, "max_units": MAX, "paths": strip([w[2] for w in parts[k]])})
         env = {"ZZV_IN": fn}
-        if corrupt and k == 0:
+        if corrupt:
             env["ZZV_CORRUPT"] = corrupt
         return R.run_test_binary(ctx, binpath, "^TestZZVFileStreamReplay$", env=env, timeout=1200, quiet=True)
 
@@ -364,10 +364,21 @@ def trace_of(rec):
             evs.append(cur)
         cur, replies = None, []
 
+    # The log is in WRITE order.  The responder handles the frames of a connection one after the other, so the frames of
+    # one synchronous reaction (sealed error record, then STREAM_CLOSE) are contiguous in ITS order even when a frame of the
+    # initiator was written in between (the initiator closes as soon as it has read the error record - on a loaded machine
+    # before the responder got to write its STREAM_CLOSE): such a Close / Reset is moved behind the reaction it crossed.
+    held = None
     for f in rec["events"]:
         e = f["ev"]
         if e in ("Ack", "ErrMeta", "OpenErr", "RClose", "RespMeta", "RData"):
             replies.append(f)
+            if held is not None and e == "RClose":
+                flush()
+                cur, held = held, None
+            continue
+        if e in ("Close", "Reset") and held is None and cur is not None and replies and replies[-1]["ev"] == "ErrMeta":
+            held = {"ev": e}
             continue
         if e == "Undecryptable":
             flush()
@@ -393,7 +404,9 @@ def trace_of(rec):
         else:
             cur = {"ev": "Unknown", "what": e}
     flush()
-    # honest uploads of an empty file send no data frame before the FIN; of other files at least one
+    if held is not None:
+        held["rc"] = "none"
+        evs.append(held)
     dst = rec["dst"]
     if up:
         dst_l = "na"
@@ -451,7 +464,7 @@ def trace_result(res, evs):
     return {"accepted": ok, "violated": None if ok else "rejected", "hw": h, "event": ev, "scenario": name}
 
 
-def confirm(ctx, binpath, mms, sets):
+def confirm(ctx, binpath, mms, sets, corrupt=""):
     """re-run the paths of the given mismatches once in a fresh process: only differences that show again are reported
     (a frame that arrives late on the loaded machine must never become a verdict)"""
     if not mms:
@@ -476,7 +489,7 @@ def confirm(ctx, binpath, mms, sets):
             resets.append((tag, sel))
     if not resets:
         return list(mms)
-    rep2 = replay(ctx, binpath, resets, nproc=2)
+    rep2 = replay(ctx, binpath, resets, nproc=2, corrupt=corrupt)
     for mm in mms:
         for m2 in rep2[mm["set"]]["mismatches"]:
             if m2["history"] == mm["history"] and m2["cfg"] == mm["cfg"]:
